@@ -23,7 +23,8 @@ EXPLANATION = (
     'request variable on every path of every iteration before any dispatch; (WMC.4) the shared per-service '
     'reference count moves by ++/-- only and is taken/released together with a client\'s awaited bit, so '
     'one client\'s reply cannot free a service another client awaits; (ARITH.1) the producer of a '
-    'slot index is bounded by the mask width.  Projection equality of outputs is not decided.')
+    'slot index is bounded by the mask width.  Projection equality of outputs is not decided.'
+    ' Rounds 8-9: (MPT.6) no re-check of a request is reached after a call that can release a service slot; (TMR.2) per-request timers; (TAB.1) folded helpers\' walks are judged on their own.')
 ASSUMPTIONS = ['clang 14 CFG and may-call graph with slot resolution', 'heap objects reached through a request pointer belong to that request']
 
 NAMED = {
